@@ -477,7 +477,8 @@ def get_paragraph_data(text, remove_pgp_signature=False):
         if name in data:
             existing_values = data.get(name, '').splitlines()
             if value not in existing_values:
-                value = '\n'.join(existing_values + [value])
+                existing_values.append(value)
+            value = '\n'.join(existing_values)
         data[name] = value
 
     return data
